@@ -139,6 +139,7 @@ def check_dataset(case: dict):
     for i, it in enumerate(items):
         got = call("C17:getitem", rds.__getitem__, i)
         iso += _compare("C17:getitem", got.numpy(), it["g"], it["sol"], opts)
+        core.scribble(got)
     idxs = case["idxs"]
     batch = call("C17:get_batch", rds.get_batch, idxs)
     eff = list(range(len(items))) if idxs is None else idxs
